@@ -126,6 +126,7 @@ type Sleeper struct {
 // AddWaker associates the given waker to the sleeper. id is the value to be
 // returned when the sleeper is woken by the given waker.
 func (s *Sleeper) AddWaker(w *Waker, id int) {
+	verifRegister(s)
 	// Add the waker to the list of all wakers.
 	w.allWakersNext = s.allWakers
 	s.allWakers = w
@@ -277,6 +278,7 @@ func (s *Sleeper) Done() {
 		}
 	}
 	s.allWakers = nil
+	verifUnregister(s)
 }
 
 // enqueueAssertedWaker enqueues an asserted waker to the "ready" circular list
